@@ -1097,7 +1097,9 @@ fn render_float_exp(
     let value_abs = value.abs();
     let is_neg = value.is_sign_negative() && value != 0.0;
 
-    let fmt_prec = prec.min(MAX_FMT_PREC);
+    // `{:e}` produces `precision + 1` significant digits and that count
+    // must fit in a `u16` as well.
+    let fmt_prec = prec.min(MAX_FMT_PREC - 1);
     let digits_str = format!("{value_abs:.fmt_prec$e}");
     let e_pos = digits_str.bytes().position(|chr| chr == b'e').unwrap();
     let mant_padded;
